@@ -181,6 +181,7 @@ package prometheus
 //@   params udpServiceMetrics tunnelTimeMetrics accessKey clientAddr clientInfo
 //@   requires validUDPSM(udpServiceMetrics) && validTT(tunnelTimeMetrics) && clientAddr != nil
 //@   ensures result != nil
+//@   ensures[C16,C17,reports-under-the-key-and-location-of-this-association] result.accessKey == accessKey && result.clientInfo == clientInfo && result.udpServiceMetrics == udpServiceMetrics && result.tunnelTimeMetrics == tunnelTimeMetrics
 //@   trace[C16,added-once] exactly 1 prometheus.Counter.Inc
 //@   trace[C17,start-at-most-once] atmost 1 prometheus.(*tunnelTimeMetrics).startConnection
 
